@@ -42,6 +42,10 @@ def hostile_streams(r):
         ("nested-100000", b"*1\r\n" * 100000),
         ("huge-bulk-length", b"$9223372036854775807\r\n"),
         ("huge-array-length", b"*2147483647\r\n"),
+        ("huge-bulk-length-allocatable-type", b"$1000000000000000000\r\n"),
+        ("huge-bulk-length-2^62", b"$4611686018427387904\r\nab"),
+        ("set-with-huge-value-length", arr(bulk(b"SET"), bulk(hk))[:-0] if False else b"*3\r\n" + bulk(b"SET") + bulk(hk) + b"$1000000000000000000\r\nxyz"),
+        ("huge-array-then-bulk", b"*1000000000000\r\n$5\r\nhello\r\n"),
         ("overflow-length", b"$99999999999999999999\r\n"),
         ("negative-array", b"*-1\r\n"),
         ("sign-only", b":-"),
@@ -203,7 +207,7 @@ def main(tier, seed):
         "checker_cmd": "make -C coq Props/C10.vo (coqc 8.16.1) ; bin/check C10",
         "trusted_base": TRUSTED,
         "evaluations": len(scs), "distinct_nontrivial": len(kinds),
-        "rule": "one scenario = one hostile byte stream (31 families: garbage, unknown/lower-case commands, unknown commands with long "
+        "rule": "one scenario = one hostile byte stream (35 families: garbage, unknown/lower-case commands, unknown commands with long "
                 "ASCII / multi-byte / invalid UTF-8 names, wrong arity, non-UTF-8 "
                 "keys, truncated frames, nesting at/beyond the limit and 100000 deep, absurd lengths, malformed items after well-formed "
                 "commands, mutations) sent on one connection while two other connections issue SET/GET with known answers before, "
